@@ -65,7 +65,7 @@ func (tt *termTable) mk(t Term) *Term {
 		fmt.Fprintf(&sb, "%s@%d", t.A.key, t.N)
 	case "B":
 		fmt.Fprintf(&sb, "%s,%s,%s", t.S, t.A.key, t.B.key)
-	case "N", "LEN":
+	case "N", "LEN", "KIND", "ISNIL":
 		sb.WriteString(t.A.key)
 	case "MI", "TA", "TAOK":
 		fmt.Fprintf(&sb, "%s,%s", t.S, t.A.key)
@@ -253,6 +253,42 @@ func (t *Term) mentionsParam() bool {
 // subst replaces parameter terms by the given argument terms.
 func (tt *termTable) subst(t *Term, args []*Term) *Term {
 	return tt.substFull(t, args, nil, -1)
+}
+
+// abstractResults rewrites subterms equal to another result's term into the
+// result symbol R(j); returns nil when nothing was rewritten.
+func (tt *termTable) abstractResults(t *Term, others []*Term) *Term {
+	for j, o := range others {
+		if o != nil && o == t {
+			return tt.mk(Term{K: "R", N: j})
+		}
+	}
+	if t.A == nil && t.B == nil {
+		return nil
+	}
+	var a, b *Term
+	changed := false
+	if t.A != nil {
+		if a = tt.abstractResults(t.A, others); a != nil {
+			changed = true
+		} else {
+			a = t.A
+		}
+	}
+	if t.B != nil {
+		if b = tt.abstractResults(t.B, others); b != nil {
+			changed = true
+		} else {
+			b = t.B
+		}
+	}
+	if !changed {
+		return nil
+	}
+	nt := *t
+	nt.A, nt.B = a, b
+	nt.vals, nt.eps, nt.key = nil, nil, ""
+	return tt.mk(nt)
 }
 
 // substFull also maps result symbols R(k) to the given terms and entry-epoch
